@@ -46,6 +46,19 @@ Example C05_term_example :
   = [Q2Qc 30; Q2Qc 0; Q2Qc 0].
 Proof. vm_compute. reflexivity. Qed.
 
+(* the whole term as `_get_columns_for_term` builds it on the sparse path (`sp_term_cols`, compared with the real method on synthetic CSC
+   factor columns in the `sparse` stream): at EVERY row, names and cells are the Kronecker product of that row's factor cells times the
+   scale -- the dense path's computation -- for any number of factors with any number of columns each *)
+Theorem C05_sparse_term_is_rowwise_kronecker : forall scale i fs, Forall (Forall (fun nc => spwf (snd nc))) fs ->
+  row_of i (sp_term_cols scale fs) = map (fun nc => (fst nc, (scale * snd nc)%Qc)) (ckron (map (row_of i) fs)).
+Proof. exact sp_term_cols_rowwise. Qed.
+Example C05_kron_example :
+  let A := [([65]%N, [(0, Q2Qc 1)]); ([66]%N, [(1, Q2Qc 1)])] in let x := [([120]%N, [(0, Q2Qc 3); (1, Q2Qc 4)])] in
+  sp_term_cols (Q2Qc 2) [A; x] = [([65; 58; 120]%N, [(0, Q2Qc 6)]); ([66; 58; 120]%N, [(1, Q2Qc 8)])].
+Proof. vm_compute. reflexivity. Qed.
+
+Print Assumptions C05_sparse_term_is_rowwise_kronecker.
+Print Assumptions C05_kron_example.
 Print Assumptions C05_sparse_term_column_refines_dense.
 Print Assumptions C05_sparse_columns_wellformed.
 Print Assumptions C05_sparse_term_column_wellformed.
